@@ -23,6 +23,19 @@ InSeq(v, s) == \E j \in 1..Len(s) : Same(s[j], v)
 RequiredKey(c, key) == AlwaysApplicable(c) /\ InSeq(key, NamedBy(c, "required_keys"))
 MentionedKey(c, key) == AlwaysApplicable(c) /\ (InSeq(key, NamedBy(c, "required_keys")) \/ InSeq(key, NamedBy(c, "allowed_keys")))
 
+\* The type-like conditions a tree node lists (Schema.to_tree "type" / "key_type"): every leaf - one entry per leaf, in
+\* order, equal ones included - of an always-applicable condition that constrains the type / length / admissible values
+\* of the value (Value.dtype.*, Value.length.*, Value.is_instance, Value.in_) or the type of the keys (Key.dtype.*,
+\* Value.keys_is_instance)
+IsValueTypeLeaf(c) == c.datum = "value" /\ (c.pre \in {"dtype", "length"} \/ (c.pre = "none" /\ c.fn \in {"is_instance", "in_"}))
+IsKeyTypeLeaf(c) == (c.datum = "key" /\ c.pre = "dtype") \/ (c.datum = "value" /\ c.pre = "none" /\ c.fn = "keys_is_instance")
+RECURSIVE CountLeaves(_, _)
+CountLeaves(c, keyside) ==
+  CASE c.t = "null" -> 0
+    [] c.t = "leaf" -> IF (IF keyside THEN IsKeyTypeLeaf(c) ELSE IsValueTypeLeaf(c)) THEN 1 ELSE 0
+    [] OTHER -> CountLeaves(c.l, keyside) + CountLeaves(c.r, keyside)
+TypeEntries(c, keyside) == IF AlwaysApplicable(c) THEN CountLeaves(c, keyside) ELSE 0
+
 (***************************************************************************)
 (* HTML: a sequence of events [t \in {"open","close"}, tag].  Accepted iff *)
 (* every close matches the innermost open element and nothing stays open.  *)
